@@ -6,7 +6,8 @@
 (***************************************************************************)
 EXTENDS Project, TypeLang, Json
 
-CONSTANT Mode    \* "disc" | "graphs3" | "edges" | "emits"
+CONSTANT Mode,   \* "disc" | "graphs3" | "edges" | "layouts" | "emits"
+         EmitDepth \* 2 | 3 : deepest frame path of the emit cases
 VARIABLE c
 
 \* ---- C03: a source file at a path class holding one attributed function
@@ -47,17 +48,47 @@ EdgeCases ==
       : sh \in Shapes, cx \in EdgeCtxs, rsite \in RootSites, rcx \in {"direct", "opt", "vec", "hmapv", "t2b", "resok"},
         sd \in BOOLEAN }
 
-\* ---- C12: emit placements
-Placements == {"stmt", "let_init", "if_then", "if_else", "match_arm_expr", "match_arm_block", "loop", "while",
-               "for", "nested_block", "try_op", "await", "unwrap_recv", "ok_recv", "closure", "nested_fn"}
+\* ---- C07: the same graphs spread over files.  `place` maps the command file ("cmd") and every type to one of four
+\* file slots; slot order is the order in which the analyser walks the files (path order), so all 256 assignments
+\* cover every relative order of "file that mentions a type" and "file that defines it", on chains (depth 2),
+\* diamonds, fan-out, a cycle, and two roots sharing a child.
+Cycle3     == [A |-> {"B"}, B |-> {"C"}, C |-> {"A"}]
+TwoParents == [A |-> {"C"}, B |-> {"C"}, C |-> {}]
+LayoutShapes == Shapes \cup {Cycle3, TwoParents}
+Slots == 1..4
+LayoutCases ==
+    { [kind |-> "graph", nodes |-> <<"A", "B", "C">>,
+       edges |-> [n \in N3 |-> {[ctx |-> "vec", to |-> m, ty |-> Apply("vec", Node(m))] : m \in sh[n]}],
+       serde |-> [n \in N3 |-> TRUE],
+       roots |-> {[site |-> rsite, ctx |-> "direct", to |-> r, ty |-> Node(r)]
+                    : r \in (IF sh = TwoParents THEN {"A", "B"} ELSE {"A"})},
+       place |-> pl]
+      : sh \in LayoutShapes, rsite \in {"param", "event"}, pl \in [N3 \cup {"cmd"} -> Slots] }
+
+\* ---- C12: emit placements.  The call sits in a *tail* form inside a path of enclosing *frames* (outermost
+\* first) within one top-level function body: "at any block nesting" is the free composition of frames.
+Tails == {"stmt", "let_init", "match_arm_expr", "try_op", "await", "unwrap_recv", "ok_recv", "tail_expr",
+          "return_expr", "cond"}
+Frames == {"if_then", "if_else", "else_if", "else_if_else", "if_let", "match_arm_block", "loop", "labeled_loop",
+           "while", "while_let", "for", "nested_block", "labeled_block", "let_init_if", "let_init_match",
+           "unsafe_block", "async_block", "closure", "nested_fn"}
 Receivers == {"app", "window", "webview", "self_app", "self_window", "method_result", "handle", "other_field"}
 Methods == {"emit", "emit_to"}
-EmitCases == { [kind |-> "emit", placed |-> p, receiver |-> r, method |-> m, lit |-> li] :
-                p \in Placements, r \in Receivers, m \in Methods, li \in BOOLEAN }
+EmitRec(fs, p, r, m, li) == [kind |-> "emit", frames |-> fs, placed |-> p, receiver |-> r, method |-> m, lit |-> li]
+\* depth <= 1: the full product; depth 2: every frame pair x every tail on the plain receiver;
+\* depth 3 (EmitDepth = 3): every frame triple with the statement tail
+EmitCases ==
+    { EmitRec(<<>>, p, r, m, li) : p \in Tails, r \in Receivers, m \in Methods, li \in BOOLEAN }
+    \cup { EmitRec(<<f>>, p, r, m, li) : f \in Frames, p \in Tails, r \in Receivers, m \in Methods, li \in BOOLEAN }
+    \cup { EmitRec(<<f, g>>, p, "app", "emit", TRUE) : f \in Frames, g \in Frames, p \in Tails }
+    \cup (IF EmitDepth >= 3
+          THEN { EmitRec(<<f, g, h>>, "stmt", "window", "emit_to", TRUE) : f \in Frames, g \in Frames, h \in Frames }
+          ELSE {})
 
 Space == CASE Mode = "disc"    -> DiscCases
            [] Mode = "graphs3" -> Graphs3
            [] Mode = "edges"   -> EdgeCases
+           [] Mode = "layouts" -> LayoutCases
            [] Mode = "emits"   -> EmitCases
 Init == c \in Space
 Next == UNCHANGED c
@@ -66,7 +97,8 @@ SetSeq(S) == IF S = {} THEN <<>> ELSE LET RECURSIVE F(_) F(T) == IF T = {} THEN 
 Out(x) == IF x.kind = "graph"
           THEN [kind |-> "graph", nodes |-> x.nodes,
                 edges |-> [n \in DOMAIN x.edges |-> SetSeq(x.edges[n])],
-                serde |-> x.serde, roots |-> SetSeq(x.roots)]
+                serde |-> x.serde, roots |-> SetSeq(x.roots),
+                place |-> IF "place" \in DOMAIN x THEN x.place ELSE [n \in {"cmd"} |-> 1]]
           ELSE x
 Emit == PrintT(<<"REPLAY", ToJson(Out(c))>>)
 =============================================================================
